@@ -6,11 +6,17 @@ defect it stands for.  usage: validate_regress.py [PROPERTY ...]"""
 import json, subprocess, sys, os
 ENV = dict(os.environ, RUSTUP_TOOLCHAIN="stable-x86_64-unknown-linux-gnu", CARGO_NET_OFFLINE="true", RUSTFLAGS="--cfg chialisp_verif", VERIF_ROOT="/verif")
 def sh(cmd, **kw): return subprocess.run(cmd, shell=True, capture_output=True, text=True, env=ENV, **kw)
+W = '/tmp/mlane-v/repo'; V = '/tmp/mlane-v/verif'
 def build():
-    r = sh("cd /verif/harness && cargo build --release --offline 2>&1 | grep -E '^error' -A6")
+    r = sh(f"cd {V}/harness && cargo build --release --offline 2>&1 | grep -E '^error' -A6")
     return r.stdout.strip() == ""
-if sh("git -C /repo status --porcelain").stdout.strip():
-    print("repo dirty"); sys.exit(2)
+# private worktree of /repo at HEAD and private copy of the harness: /repo and /verif stay untouched
+os.makedirs('/tmp/mlane-v', exist_ok=True)
+if not os.path.isdir(W): sh(f"git -C /repo worktree add -q --detach {W} HEAD")
+sh(f"git -C {W} checkout -q --detach $(git -C /repo rev-parse HEAD) && git -C {W} checkout -q -- . && git -C {W} clean -fdq")
+sh(f"mkdir -p {V}/harness && rsync -a --delete --exclude target /verif/harness/ {V}/harness/ && mkdir -p {V}/replays && rsync -a --delete /verif/replays/known /verif/replays/regress {V}/replays/ && cp /verif/known_findings.jsonl /verif/properties.jsonl {V}/")
+sh(f"sed -i 's#path = \"/repo\"#path = \"{W}\"#' {V}/harness/Cargo.toml")
+ENV['VERIF_ROOT'] = V
 want = set(sys.argv[1:])
 rows = [json.loads(l) for l in open('/verif/known_findings.jsonl') if l.strip()]
 out = []
@@ -20,23 +26,23 @@ try:
         reg = r.get('regress')
         if not reg or not os.path.exists('/verif/' + reg):
             out.append((r['property'], r['id'], r['commit'], 'NO-REPLAY')); continue
-        a = sh(f"git -C /repo show {r['commit']} -- src | git -C /repo apply -R")
+        a = sh(f"git -C /repo show {r['commit']} -- src | git -C {W} apply -R")
         if a.returncode != 0:
-            out.append((r['property'], r['id'], r['commit'], 'REVERT-FAILED ' + a.stderr.strip()[:80])); sh("git -C /repo checkout -- ."); continue
+            out.append((r['property'], r['id'], r['commit'], 'REVERT-FAILED ' + a.stderr.strip()[:80])); sh(f"git -C {W} checkout -- ."); continue
         if not build():
-            out.append((r['property'], r['id'], r['commit'], 'BUILD-FAILED')); sh("git -C /repo checkout -- ."); continue
+            out.append((r['property'], r['id'], r['commit'], 'BUILD-FAILED')); sh(f"git -C {W} checkout -- ."); continue
         try:
-            p = subprocess.run(['/verif/harness/target/release/vcheck', 'replay', '/verif/' + reg], capture_output=True, text=True, timeout=60, env=ENV)
+            p = subprocess.run([V + '/harness/target/release/vcheck', 'replay', V + '/' + reg, '--root', V], capture_output=True, text=True, timeout=60, env=ENV)
             if '"verdict": "violation"' in p.stdout: res = 'DETECTED violation'
             elif p.returncode != 0: res = f'DETECTED exit {p.returncode}'
             else: res = 'MISSED (replay passes without the fix)'
         except subprocess.TimeoutExpired:
             res = 'DETECTED timeout'
         out.append((r['property'], r['id'], r['commit'], res))
-        sh("git -C /repo checkout -- .")
+        sh(f"git -C {W} checkout -- .")
         print(out[-1], flush=True)
 finally:
-    sh("git -C /repo checkout -- .")
+    sh(f"git -C {W} checkout -- .")
     build()
 with open('/verif/notes/regress-validation.txt', 'w') as f:
     for o in out: f.write(' '.join(o) + '\n')
